@@ -127,7 +127,9 @@ impl Sim {
             if !world.has_node(k) { return }
             let op = match Message::decode(bytes) {
                 Ok(m) => {
-                    let spec = world.tid_spec(&m.transaction_id);
+                    // a query carries the sender's id, a reply echoes the receiver's
+                    let owner = if matches!(m.body, MessageBody::Request(_)) { from } else { k };
+                    let spec = world.tid_spec(owner, &m.transaction_id);
                     format!("dg {k} {spec} {} {}", addr_str(&from_addr), world.body_text_in(&m))
                 }
                 Err(_) => format!("dgraw {k} {} {}", hex_or_dash(bytes), addr_str(&from_addr)),
@@ -142,7 +144,7 @@ impl Sim {
         let at = now + self.latency();
         // an outage may begin while the answer is on its way back: it is then lost
         if !self.peers[pi].answers_at(at) { return }
-        let spec = world.tid_spec(&m.transaction_id);
+        let spec = world.tid_spec(from, &m.transaction_id);
         let src = addr_str(&dst);
         let k = from;
         let pid = hex(&self.peers[pi].id);
@@ -187,8 +189,9 @@ impl Sim {
 
 impl World {
     /// `#k` for ids of queries real nodes sent, `x<hex>` otherwise
-    pub fn tid_spec(&self, tid: &[u8]) -> String {
-        match self.names_pos(tid) { Some(k) => format!("#{k}"), None => format!("x{}", hex_or_dash(tid)) }
+    /// `owner`: the real node that sent the query carrying `tid`
+    pub fn tid_spec(&self, owner: usize, tid: &[u8]) -> String {
+        match self.names_pos(owner, tid) { Some(k) => format!("#{k}"), None => format!("x{}", hex_or_dash(tid)) }
     }
 }
 
@@ -487,7 +490,7 @@ impl Checker {
             let Some(p) = sim.peers.iter().find(|p| p.addr == *dst) else { continue };
             if self.probe_done >= self.probes.len() { break }
             self.probe_done += 1;
-            let spec = world.tid_spec(&m.transaction_id);
+            let spec = world.tid_spec(e.node, &m.transaction_id);
             let pid = hex(&p.id);
             let src = addr_str(dst);
             let k = e.node;
